@@ -84,7 +84,7 @@ type C20Named struct {
 	L []string
 }
 
-const c20NumOps = 17
+const c20NumOps = 18
 
 func c20Setup() (*c20Shared, error) {
 	c20Once.Do(func() {
@@ -128,6 +128,7 @@ func c20Setup() (*c20Shared, error) {
 			{Name: "T1", Kind: "union", Repr: "keyed", Members: []tschema.MemberSpec{{Type: "T0", Discr: "d0"}, {Type: "String", Discr: "d1"}}},
 			{Name: "T2", Kind: "map", Elem: "T1", ElemNullable: true},
 			{Name: "T3", Kind: "struct", Repr: "map", Fields: []tschema.FieldSpec{{Name: "fa", Type: "T2"}, {Name: "fb", Type: "T0", Nullable: true}, {Name: "fc", Type: "Bytes", Optional: true, Rename: "r"}}},
+			{Name: "C20W", Kind: "struct", Repr: "map", Fields: []tschema.FieldSpec{{Name: "s", Type: "String"}}},
 		}}
 		ts, err := s.schema.Build()
 		if err != nil {
@@ -501,6 +502,32 @@ func c20Do(s *c20Shared, op, step, gid int) error {
 				_ = bindnode.Prototype((*struct{ Ch chan int })(nil), nil)
 			}
 		}()
+	case 17: // the same (Go type, shared schema type) pair bound with and without a converter option
+		// with the option the pair is compatible; without it Wrap refuses the pair (it panics): each caller gets
+		// what it would get alone, whatever the others passed
+		wt := s.ts.TypeByName("C20W")
+		conv := bindnode.TypedStringConverter(&c20Ident{}, func(x string) (interface{}, error) { return &c20Ident{v: x}, nil },
+			func(x interface{}) (string, error) { return x.(*c20Ident).v, nil })
+		if step%2 == 0 {
+			w := &C20W{S: c20Ident{v: "held"}}
+			n := bindnode.Wrap(w, wt, conv)
+			f, err := n.LookupByString("s")
+			if err != nil {
+				return err
+			}
+			if str, err := f.AsString(); err != nil || str != "held" {
+				return fmt.Errorf("Wrap with a string converter reads %q (err %v)", str, err)
+			}
+		} else {
+			refused := false
+			func() {
+				defer func() { refused = recover() != nil }()
+				_ = bindnode.Wrap(&C20W{S: c20Ident{v: "held"}}, wt)
+			}()
+			if !refused {
+				return fmt.Errorf("Wrap of a Go type that needs a converter succeeded without one (alone it is refused): another caller's options leaked")
+			}
+		}
 	case 15: // compile the shared selector spec again
 		if _, err := selector.CompileSelector(s.specNode); err != nil {
 			return err
@@ -508,6 +535,10 @@ func c20Do(s *c20Shared, op, step, gid int) error {
 	}
 	return nil
 }
+
+// C20W is bound to the schema type C20W {s String}: its field needs a string converter.
+type C20W struct{ S c20Ident }
+type c20Ident struct{ v string }
 
 func c20Check(c C20Case, rec *evid.Rec) error {
 	s, err := c20Setup()
@@ -585,7 +616,7 @@ func c20Check(c C20Case, rec *evid.Rec) error {
 
 var c20Part = evid.Part[C20Case]{
 	Prop: "C20", Name: "concurrent", Quick: 150, Thorough: 200000,
-	Rule: "round: 2-24 goroutines each run a drawn sequence of ≤40 read-only operations on objects created once and shared (basicnode / bindnode / generated nodes with their representation views, plain and reader-backed bytes nodes, a compiled selector, a traversal configuration and link system over a read-only store, a type system, bindnode and generated prototypes, the default codec registry): full reads, DeepEqual, Copy, encode, ComputeLink, Load, LoadRaw, WalkAdv, WalkMatching, Get, building from shared prototypes, Wrap/Prototype with explicit and inferred schemas, registry look-ups, schema type methods, selector compilation, binding calls that inference refuses; built with the race detector, varied GOMAXPROCS and injected Gosched; every result must equal the sequentially computed one; non-trivial = ≥2 goroutines performed the same class of operation on the shared objects; sampled schedules, distinct by the operation matrix",
+	Rule: "round: 2-24 goroutines each run a drawn sequence of ≤40 read-only operations on objects created once and shared (basicnode / bindnode / generated nodes with their representation views, plain and reader-backed bytes nodes, a compiled selector, a traversal configuration and link system over a read-only store, a type system, bindnode and generated prototypes, the default codec registry): full reads, DeepEqual, Copy, encode, ComputeLink, Load, LoadRaw, WalkAdv, WalkMatching, Get, building from shared prototypes, Wrap/Prototype with explicit and inferred schemas, registry look-ups, schema type methods, selector compilation, binding calls that inference refuses, Wrap of one (Go type, schema type) pair with and without the converter option it needs; built with the race detector, varied GOMAXPROCS and injected Gosched; every result must equal the sequentially computed one; non-trivial = ≥2 goroutines performed the same class of operation on the shared objects; sampled schedules, distinct by the operation matrix",
 	Gen: func(t *rapid.T) C20Case {
 		g := rapid.IntRange(2, 24).Draw(t, "goroutines")
 		c := C20Case{Procs: rapid.SampledFrom([]int{0, 1, 2, 4, 16}).Draw(t, "procs"), Yield: rapid.SliceOfN(rapid.IntRange(0, 39), 0, 8).Draw(t, "yield")}
